@@ -4,9 +4,12 @@ From Coq Require Import ZArith List Bool Lia ZifyBool.
 From FT Require Import Model.Base Model.Obs Model.C16Metrics Model.C16Nest Model.C16Check
                        Proofs.C16MetricsP Proofs.C16CoreP Proofs.C16RefP Proofs.C16AndP
                        Proofs.C16NestP Proofs.C16PlainP Proofs.C16AndLevelP Proofs.C16EagerP
-                       Proofs.C16PopP.
+                       Proofs.C16PopP Proofs.C16PopPosP Proofs.C16PopCoreP.
 Import ListNotations.
 Open Scope Z_scope.
+
+Section WithZZ.
+Context {zz : ZZ}.
 
 (* ------------------------------------------------------------------ the `&` source of a populate *)
 Lemma and_src_rows : forall i r la lb tr xs ys pt (fx fy : Z -> option Z), r = Z.of_nat i -> la <> lb ->
@@ -82,7 +85,19 @@ Proof.
 Qed.
 
 (* ------------------------------------------------------------------ z_i << x_i *)
-Lemma pop_fib_level_spec : forall n tr zshape nz i x u zu sh lv' pt e z zes (body : body_t) dz,
+Definition asc_src (L : level) (e : env) : Prop :=
+  match map fst (ref_elems L e) with [] => True | c0 :: cs => inc_from c0 cs end.
+
+(* what the destination-side clause (zs = true) needs at a populate level: the fibers of the point
+   in the trees before / after the run are the one handed in / returned, the traversal does not
+   insert, destination and source are ascending *)
+Definition zside_ok (tr : tkey -> bool) (zshape : list Z) (nz i : nat) (L : level) (body : body_t)
+  (pt : list Z) (e : env) (z : thr) (zes : fib) : Prop :=
+  zdesc zz_in pt = zes
+  /\ th_z (snd (run_level tr zshape nz i L body e z)) = Some (Node (zdesc zz_out pt))
+  /\ appending L zes e = true /\ ssorted_f zes /\ asc_src L e.
+
+Lemma pop_fib_level_spec : forall zs n tr zshape nz i x u zu sh lv' pt e z zes (body : body_t) dz,
   length pt = i -> labinv i z -> th_z z = Some (Node zes) -> ftyp dz zes -> nz = (S i + dz)%nat ->
   let r := Z.of_nat i in
   let L := {| l_pop := true; l_src := SFib x; l_ufmt := u; l_zufmt := zu; l_proj := None; l_shape := sh |} in
@@ -90,27 +105,30 @@ Lemma pop_fib_level_spec : forall n tr zshape nz i x u zu sh lv' pt e z zes (bod
   (forall c e' z', labinv (S i) z' -> zty dz z' ->
      labinv (S i) (snd (body c e' z')) /\ zty dz (snd (body c e' z'))) ->
   (forall c e' z', labinv (S i) z' -> zty dz z' -> In (c, e') (ref_elems L e) ->
-     spec false tr n (S i) lv' (pt ++ [c]) e' (fst (body c e' z'))) ->
-  spec false tr n i (L :: lv') pt e (fst (run_level tr zshape nz i L body e z))
+     spec zs tr n (S i) lv' (pt ++ [c]) e' (fst (body c e' z'))) ->
+  (zs = true -> zside_ok tr zshape nz i L body pt e z zes) ->
+  spec zs tr n i (L :: lv') pt e (fst (run_level tr zshape nz i L body e z))
   /\ labinv i (snd (run_level tr zshape nz i L body e z))
   /\ zty (S dz) (snd (run_level tr zshape nz i L body e z)).
 Proof.
-  intros n tr zshape nz i x u zu sh lv' pt e z zes body dz Lpt Hz Hzt Hft Hnz r L Hpos Hb Hbody.
+  intros zs n tr zshape nz i x u zu sh lv' pt e z zes body dz Lpt Hz Hzt Hft Hnz r L Hpos Hb Hbody HZ.
   destruct (pop_labels i z Hz) as (P1 & P2 & P3 & P4 & P5 & P6). fold r in P1, P2, P3, P4, P5, P6.
-  unfold run_level. cbn [l_pop l_src l_proj l_ufmt l_zufmt l_shape L fst snd]. rewrite Hzt. fold r.
-  cbn [src_labels src_stream fst snd]. rewrite P1, P2, P3.
+  unfold zside_ok in HZ.
+  unfold run_level in HZ |- *. cbn [l_pop l_src l_proj l_ufmt l_zufmt l_shape L fst snd] in HZ |- *.
+  rewrite Hzt in HZ |- *. fold r in HZ |- *.
+  cbn [src_labels src_stream fst snd] in HZ |- *. rewrite P1, P2, P3. rewrite ?P1, ?P2, ?P3 in HZ.
   set (ls3 := snd (lab_get (snd (lab_get (snd (lab_reg (th_lab z) r)) r)) r)) in *.
-  set (els := map (fun ct : Z * tree => (@nil mev, (fst ct, set_nth x (snd ct) e))) (offered_f u sh (sub e x))).
+  set (els := map (fun ct : Z * tree => (@nil mev, (fst ct, set_nth x (snd ct) e))) (offered_f u sh (sub e x))) in *.
   assert (Hzl : Nat.eqb (S i) nz = true -> dz = O) by (intros H; apply Nat.eqb_eq in H; lia).
   assert (Hzl2 : Nat.eqb (S i) nz = false -> (0 < dz)%nat) by (intros H; apply Nat.eqb_neq in H; lia).
-  destruct (pop_level_core n tr i (SFib x) u zu sh lv' pt e body zes els [] ls3 (nth i zshape 0)
+  destruct (pop_level_core zs n tr i (SFib x) u zu sh lv' pt e body zes els [] ls3 (nth i zshape 0)
               (Nat.eqb (S i) nz) dz Lpt P4 Hft Hzl Hzl2 Hb Hbody) as (C1 & C2 & C3).
   - unfold els. apply Forall_forall. intros el Hin. apply in_map_iff in Hin. destruct Hin as (ct & <- & _). constructor.
   - constructor.
   - unfold els, ref_elems, ref_off, pcoord. cbn [l_src l_proj l_ufmt l_shape]. rewrite !map_map. reflexivity.
   - intros label _. unfold expect_at. cbn [l_pop l_src l_proj l_ufmt andb orb negb].
     assert (uses label (flat_map fst els ++ []) = []) as ->.
-    { rewrite app_nil_r. unfold els. induction (offered_f u sh (sub e x)); cbn; auto. }
+    { rewrite app_nil_r. unfold els. clear. induction (offered_f u sh (sub e x)); cbn; auto. }
     reflexivity.
   - intros Hbt. unfold expect_at. cbn [l_pop l_src l_proj l_ufmt andb orb negb].
     change (K_POP =? K_ITER) with false. change (K_POP =? K_INT) with false.
@@ -121,6 +139,9 @@ Proof.
                        pt (offered_f u sh (sub e x)) 0).
     + reflexivity.
     + intros j ct Hn. pose proof (Hpos Hbt j ct Hn) as Hq. unfold L in Hq. rewrite Hq. reflexivity.
+  - intros Hzs. destruct (HZ Hzs) as (Zi & Zo & Happ & Hsz & Hasc). cbn [snd th_z] in Zo.
+    split; [exact Zi|]. split; [|split; [exact Happ|split; [exact Hsz|exact Hasc]]].
+    inversion Zo as [Zo']. reflexivity.
   - fold r in C1, C2, C3. cbn [reg_events map app]. cbn [app] in C1.
     split; [exact C1|split].
     + cbn [snd]. apply labinv_linv. cbn [th_lab]. apply linv_end. exact C2.
@@ -132,7 +153,7 @@ Lemma flat_map_fst_map : forall {A B C} (g : list A * B -> C) (l : list (list A 
 Proof. induction l as [|pc l IH]; cbn; auto. rewrite IH. reflexivity. Qed.
 
 (* ------------------------------------------------------------------ z_i << (x_i & y_i) *)
-Lemma pop_and_level_spec : forall n tr zshape nz i x y u zu sh lv' pt e z zes (body : body_t) dz,
+Lemma pop_and_level_spec : forall zs n tr zshape nz i x y u zu sh lv' pt e z zes (body : body_t) dz,
   length pt = i -> labinv i z -> th_z z = Some (Node zes) -> ftyp dz zes -> nz = (S i + dz)%nat ->
   let r := Z.of_nat i in
   let L := {| l_pop := true; l_src := SAnd x y; l_ufmt := u; l_zufmt := zu; l_proj := None; l_shape := sh |} in
@@ -141,21 +162,24 @@ Lemma pop_and_level_spec : forall n tr zshape nz i x y u zu sh lv' pt e z zes (b
   (forall c e' z', labinv (S i) z' -> zty dz z' ->
      labinv (S i) (snd (body c e' z')) /\ zty dz (snd (body c e' z'))) ->
   (forall c e' z', labinv (S i) z' -> zty dz z' -> In (c, e') (ref_elems L e) ->
-     spec false tr n (S i) lv' (pt ++ [c]) e' (fst (body c e' z'))) ->
-  spec false tr n i (L :: lv') pt e (fst (run_level tr zshape nz i L body e z))
+     spec zs tr n (S i) lv' (pt ++ [c]) e' (fst (body c e' z'))) ->
+  (zs = true -> zside_ok tr zshape nz i L body pt e z zes) ->
+  spec zs tr n i (L :: lv') pt e (fst (run_level tr zshape nz i L body e z))
   /\ labinv i (snd (run_level tr zshape nz i L body e z))
   /\ zty (S dz) (snd (run_level tr zshape nz i L body e z)).
 Proof.
-  intros n tr zshape nz i x y u zu sh lv' pt e z zes body dz Lpt Hz Hzt Hft Hnz r L Hsx Hsy Hpos Hb Hbody.
+  intros zs n tr zshape nz i x y u zu sh lv' pt e z zes body dz Lpt Hz Hzt Hft Hnz r L Hsx Hsy Hpos Hb Hbody HZ.
   destruct (pop_labels i z Hz) as (P1 & P2 & P3 & P4 & P5 & P6). fold r in P1, P2, P3, P4, P5, P6.
-  unfold run_level. cbn [l_pop l_src l_proj l_ufmt l_zufmt l_shape L fst snd]. rewrite Hzt. fold r.
-  cbn [src_labels src_stream fst snd]. rewrite P1, P2, P3.
+  unfold zside_ok in HZ.
+  unfold run_level in HZ |- *. cbn [l_pop l_src l_proj l_ufmt l_zufmt l_shape L fst snd] in HZ |- *.
+  rewrite Hzt in HZ |- *. fold r in HZ |- *.
+  cbn [src_labels src_stream fst snd] in HZ |- *. rewrite P1, P2, P3. rewrite ?P1, ?P2, ?P3 in HZ.
   set (ls2 := snd (lab_get (snd (lab_get (snd (lab_reg (th_lab z) r)) r)) r)) in *.
   destruct (lab_get_val ls2 r 2 P5 (or_introl P6)) as (A1 & A2 & A3).
   destruct (lab_get_val (snd (lab_get ls2 r)) r 3 A3 (or_introl A2)) as (B1 & B2 & B3).
   destruct (lab_get_inv i ls2 P5) as (G1 & G2 & G3). fold r in G1, G2, G3.
   destruct (lab_get_inv i (snd (lab_get ls2 r)) G1) as (H1 & H2 & H3). fold r in H1, H2, H3.
-  rewrite A1, B1.
+  rewrite A1, B1. rewrite ?A1, ?B1 in HZ.
   set (ls3 := snd (lab_get (snd (lab_get ls2 r)) r)) in *.
   assert (Hls3 : linv (S i) ls3).
   { destruct P4 as [N4 C4]. split.
@@ -163,17 +187,17 @@ Proof.
     - intros j Hj. unfold cz in *. cbn [th_lab] in *. rewrite H3, G3 by lia. apply (C4 j Hj). }
   set (xs := offered_f u sh (sub e x)) in *. set (ys := offered_f u sh (sub e y)) in *.
   change (ref_off L e x) with xs in *. change (ref_off L e y) with ys in *.
-  set (ag := and_go r 2 3 (tr (r, K_INT, 2)) (tr (r, K_INT, 3)) xs ys 0 0 []).
+  set (ag := and_go r 2 3 (tr (r, K_INT, 2)) (tr (r, K_INT, 3)) xs ys 0 0 []) in *.
   set (els := map (fun pc : list mev * (Z * (tree * tree)) =>
                      (fst pc, (fst (snd pc), set_nth y (snd (snd (snd pc))) (set_nth x (fst (snd (snd pc))) e))))
-                  (fst ag)).
+                  (fst ag)) in *.
   assert (Hzl : Nat.eqb (S i) nz = true -> dz = O) by (intros H; apply Nat.eqb_eq in H; lia).
   assert (Hzl2 : Nat.eqb (S i) nz = false -> (0 < dz)%nat) by (intros H; apply Nat.eqb_neq in H; lia).
   destruct (and_go_events (srcP i) r 2 3 (tr (r, K_INT, 2)) (tr (r, K_INT, 3))) with (xs := xs) (ys := ys)
     (apos := 0) (bpos := 0) (pre := @nil mev) as [E1 E2]; try (intros; cbn; auto; fail); auto.
   fold ag in E1, E2.
   pose proof (and_go_yields r 2 3 (tr (r, K_INT, 2)) (tr (r, K_INT, 3)) xs Hsx ys Hsy 0 0 []) as HY. fold ag in HY.
-  destruct (pop_level_core n tr i (SAnd x y) u zu sh lv' pt e body zes els (snd ag) ls3 (nth i zshape 0)
+  destruct (pop_level_core zs n tr i (SAnd x y) u zu sh lv' pt e body zes els (snd ag) ls3 (nth i zshape 0)
               (Nat.eqb (S i) nz) dz Lpt Hls3 Hft Hzl Hzl2 Hb Hbody) as (C1 & C2 & C3).
   - unfold els. apply Forall_forall. intros el Hin. apply in_map_iff in Hin. destruct Hin as (pc & <- & Hpc).
     cbn [fst]. rewrite Forall_forall in E1. apply (E1 _ Hpc).
@@ -195,6 +219,9 @@ Proof.
   - intros Hbt. unfold expect_at. cbn [l_pop l_src l_proj l_ufmt andb orb negb].
     change (K_POP =? K_ITER) with false. change (K_POP =? K_INT) with false.
     change (K_POP =? K_POP) with true. change (1 =? 1) with true. cbn [andb]. reflexivity.
+  - intros Hzs. destruct (HZ Hzs) as (Zi & Zo & Happ & Hsz & Hasc). cbn [snd th_z] in Zo.
+    split; [exact Zi|]. split; [|split; [exact Happ|split; [exact Hsz|exact Hasc]]].
+    inversion Zo as [Zo']. reflexivity.
   - fold r in C1, C2, C3. cbn [reg_events map app]. cbn [app] in C1.
     split; [exact C1|split].
     + cbn [snd]. apply labinv_linv. cbn [th_lab]. apply linv_end. exact C2.
@@ -391,13 +418,78 @@ Proof.
       pose proof (Hpo O _ eq_refl) as Hp0. unfold lvl_pos_ok in Hp0. cbn [l_src l_pop l_ufmt] in Hp0.
       replace (i + 0)%nat with i in Hp0 by lia.
       cbn [run]. destruct s as [x|x y].
-      * apply (pop_fib_level_spec n tr zshape nz i x u zu sh lv pt e z zes _ (n_pop lv) Lpt Hz Ht Hft ltac:(lia)); auto.
+      * apply (pop_fib_level_spec false n tr zshape nz i x u zu sh lv pt e z zes _ (n_pop lv) Lpt Hz Ht Hft ltac:(lia)); auto;
+          [|discriminate].
         intros Hbt. apply pos_ok_of; auto.
       * cbv zeta in Hp0.
-        apply (pop_and_level_spec n tr zshape nz i x y u zu sh lv pt e z zes _ (n_pop lv) Lpt Hz Ht Hft ltac:(lia)); auto.
+        apply (pop_and_level_spec false n tr zshape nz i x y u zu sh lv pt e z zes _ (n_pop lv) Lpt Hz Ht Hft ltac:(lia)); auto;
+          [| | |discriminate].
         { apply (ref_off_ok _ e x He). }
         { apply (ref_off_ok _ e y He). }
         { intros Hn. destruct (Hp0 Hn) as [Hu|[Hx Hy]]; split; apply pos_ok_of; auto. }
     + apply (eager_nest_spec false n tr zshape nz m (L :: lv) Hp i pt e z Lpt Hz He).
       apply pos_ok_int; auto.
 Qed.
+
+
+(* ---- ascending coordinates of the reference elements (sorted inputs) ---- *)
+Lemma inc_from_and : forall (ys : fib) (g : Z * tree -> tree -> env) xs c, all_gt c xs -> ssorted_f xs ->
+  inc_from c (map fst (flat_map (fun ct => match lookup (fst ct) ys with
+                                            | Some ty => [(fst ct, g ct ty)] | None => [] end) xs)).
+Proof.
+  intros ys g xs. induction xs as [|[c' t'] xs IH]; intros c Hg Hs; [exact I|].
+  destruct Hg as [H1 H2]. destruct Hs as [Hs1 Hs2]. cbn [flat_map fst].
+  destruct (lookup c' ys); cbn [app map fst].
+  - split; [exact H1|]. apply IH; auto.
+  - apply IH; auto.
+Qed.
+
+Lemma asc_src_ok : forall L e, env_ok e -> l_proj L = None -> asc_src L e.
+Proof.
+  intros L e He Hj. unfold asc_src, ref_elems, pcoord. rewrite Hj. destruct (l_src L) as [x|x y].
+  - rewrite map_map. cbn [fst]. destruct (ref_off_ok L e x He) as [Hso _].
+    destruct (ref_off L e x) as [|[c0 t0] rest]; [exact I|]. destruct Hso as [Hg Hso].
+    cbn [map fst]. apply all_gt_inc; auto.
+  - destruct (ref_off_ok L e x He) as [Hso _]. induction (ref_off L e x) as [|[c0 t0] rest IH]; [exact I|].
+    destruct Hso as [Hg Hso]. cbn [flat_map fst]. destruct (lookup c0 (ref_off L e y)); cbn [app map fst].
+    + apply (inc_from_and (ref_off L e y) (fun ct ty => set_nth y ty (set_nth x (snd ct) e))); auto.
+    + apply IH; auto.
+Qed.
+
+(* ---- a nest whose populate prefix is its first level only: the whole specification incl. the
+   destination side (zs = true) when the root traversal does not insert ---- *)
+Theorem pop1_spec : forall zs n tr zshape m L lv e zes,
+  lvl_ok L = true -> l_pop L = true -> forallb eager_level lv = true ->
+  ftyp 0 zes -> env_ok e -> nest_pos_ok tr 0 (L :: lv) e ->
+  let z := {| th_z := Some (Node zes); th_lab := lab0 |} in
+  (zs = true -> zside_ok tr zshape 1 0 L (fun c e' z' => run tr zshape 1 m lv 1 ([] ++ [c]) e' z') [] e z zes) ->
+  spec zs tr n 0 (L :: lv) [] e (fst (run tr zshape 1 m (L :: lv) 0 [] e z)).
+Proof.
+  intros zs n tr zshape m L lv e zes Hok EP Hp Hft He Hpo z HZ.
+  pose proof Hok as Hok'. unfold lvl_ok in Hok'. apply andb_true_iff in Hok'. destruct Hok' as [Hpj Hxy].
+  destruct L as [pop s u zu pj sh]. cbn [l_pop l_proj l_src] in *. subst pop.
+  destruct pj; [discriminate|].
+  assert (Hz : labinv 0 z) by apply labinv0.
+  assert (Hb : forall c e' z', labinv 1 z' -> zty 0 z' ->
+            labinv 1 (snd (run tr zshape 1 m lv 1 ([] ++ [c]) e' z'))
+            /\ zty 0 (snd (run tr zshape 1 m lv 1 ([] ++ [c]) e' z'))).
+  { intros c e' z' Hz' Hzt'. split; [apply eager_noall; auto|apply eager_zty; auto]. }
+  assert (Hbody : forall c e' z', labinv 1 z' -> zty 0 z' ->
+            In (c, e') (ref_elems {| l_pop := true; l_src := s; l_ufmt := u; l_zufmt := zu; l_proj := None; l_shape := sh |} e) ->
+            spec zs tr n 1 lv ([] ++ [c]) e' (fst (run tr zshape 1 m lv 1 ([] ++ [c]) e' z'))).
+  { intros c e' z' Hz' Hzt' Hin. destruct (ref_elems_child _ e c e' Hok He Hin) as [He' Hcl].
+    apply (eager_nest_spec zs n tr zshape 1 m lv Hp 1%nat ([] ++ [c]) e' z' eq_refl Hz' He').
+    apply pos_ok_int; auto. eapply nest_pos_ok_down; eauto. }
+  pose proof (Hpo O _ eq_refl) as Hp0. unfold lvl_pos_ok in Hp0. cbn [l_src l_pop l_ufmt] in Hp0.
+  cbn [plus] in Hp0.
+  cbn [run]. destruct s as [x|x y].
+  - apply (pop_fib_level_spec zs n tr zshape 1 0 x u zu sh lv [] e z zes _ 0%nat eq_refl Hz eq_refl Hft eq_refl); auto.
+    intros Hbt. apply pos_ok_of; auto.
+  - cbv zeta in Hp0.
+    apply (pop_and_level_spec zs n tr zshape 1 0 x y u zu sh lv [] e z zes _ 0%nat eq_refl Hz eq_refl Hft eq_refl); auto.
+    + apply (ref_off_ok _ e x He).
+    + apply (ref_off_ok _ e y He).
+    + intros Hn. destruct (Hp0 Hn) as [Hu|[Hx Hy]]; split; apply pos_ok_of; auto.
+Qed.
+
+End WithZZ.
